@@ -21,6 +21,8 @@ CHECKS = {
              ref="§5 C15", note="signature = oracle bool; unpredictability of secrets.token_hex is not a solver question (outside). "),
  "C16": dict(text="Each validator raises iff its documented bound is violated (symbolic sizes, clocks, kinds, key selectors, PoW bits, p-tag counts); pipeline order/fail-closed; dynamic list contents after refresh; no admission window during refresh with a concurrent validation after every set mutation.",
              ref="§5 C16", note="clock symbolic ints; executor replaced by a synchronous call; threads modelled at set-operation granularity (GIL); verification.py (NIP-05) cannot be imported (nostr_bot absent) and is outside. "),
+ "C20": dict(text="NotifyClient.connect and NotifyServer.handle_notify driven over a fake stream whose chunk boundaries, disconnect offset and handler schedule are symbolic selectors: ids looked up == ids announced (intact, in order, once), nothing for a truncated id, receivers see whole frames only, no echo to the sender, announce iff notifier enabled.",
+             ref="§5 C20", note="asyncio streams replaced by a fake reader implementing read/readexactly per the asyncio contract; <=2 ids, 2 senders + 1 receiver; real TCP outside. "),
 }
 NA = {}
 def main():
